@@ -45,11 +45,43 @@ func (fc *FnCtx) mkCoin(t types.Type, denom, amt string) Val {
 }
 
 func init() {
-	mi := func(name string, f func(*preCall) Val) { reg("("+sdkMath+".Int)."+name, f) }
+	// In the safety sweep the nil-ness of a math.Int (its zero value wraps a nil *big.Int; every method panics on
+	// it) is tracked with the predicate int_isnil: values read from inputs may be nil, results of constructors and
+	// of arithmetic are not.
+	nilInt := func(p *preCall, t string) {
+		fc := p.fc()
+		if fc.Mode != "safety" || p.cc == nil {
+			return
+		}
+		fc.B.DeclFun("int_isnil", []string{"Int"}, "Bool")
+		fc.safety(p.reach, "(int_isnil "+t+")", "nil-math-int", p.cc)
+	}
+	notNil := func(p *preCall, v Val) Val {
+		fc := p.fc()
+		if fc.Mode == "safety" && v.S == "Int" && v.T != "" {
+			if nt, ok := v.Typ.(*types.Named); ok && nt.Obj().Name() == "Int" && nt.Obj().Pkg() != nil && nt.Obj().Pkg().Path() == sdkMath {
+				fc.B.DeclFun("int_isnil", []string{"Int"}, "Bool")
+				fc.B.Assert(implies(p.reach, not("(int_isnil "+v.T+")")))
+			}
+		}
+		return v
+	}
+	mi := func(name string, f func(*preCall) Val) {
+		reg("("+sdkMath+".Int)."+name, func(p *preCall) Val {
+			if name != "IsNil" {
+				nilInt(p, p.args[0].T)
+			}
+			return notNil(p, f(p))
+		})
+	}
 	mi("IsNegative", func(p *preCall) Val { return boolVal("(< " + p.args[0].T + " 0)") })
 	mi("IsZero", func(p *preCall) Val { return boolVal("(= " + p.args[0].T + " 0)") })
 	mi("IsPositive", func(p *preCall) Val { return boolVal("(> " + p.args[0].T + " 0)") })
 	mi("IsNil", func(p *preCall) Val {
+		if p.fc().Mode == "safety" {
+			p.fc().B.DeclFun("int_isnil", []string{"Int"}, "Bool")
+			return boolVal("(int_isnil " + p.args[0].T + ")")
+		}
 		p.fc().B.Note("math.Int.IsNil modelled as false (nil-ness of math.Int not tracked)")
 		return boolVal("false")
 	})
@@ -76,15 +108,22 @@ func init() {
 		}
 		return Val{S: "Int", T: p.args[0].T, Typ: types.Typ[types.Uint64]}
 	})
-	reg(sdkMath+".ZeroInt", func(p *preCall) Val { return Val{S: "Int", T: "0", Typ: p.typ(0)} })
-	reg(sdkMath+".OneInt", func(p *preCall) Val { return Val{S: "Int", T: "1", Typ: p.typ(0)} })
-	reg(sdkMath+".NewInt", func(p *preCall) Val { return Val{S: "Int", T: p.args[0].T, Typ: p.typ(0)} })
+	reg(sdkMath+".ZeroInt", func(p *preCall) Val { return notNil(p, Val{S: "Int", T: "0", Typ: p.typ(0)}) })
+	reg(sdkMath+".OneInt", func(p *preCall) Val { return notNil(p, Val{S: "Int", T: "1", Typ: p.typ(0)}) })
+	reg(sdkMath+".NewInt", func(p *preCall) Val { return notNil(p, Val{S: "Int", T: p.args[0].T, Typ: p.typ(0)}) })
 	reg(sdkMath+".NewIntFromUint64", func(p *preCall) Val { return Val{S: "Int", T: p.args[0].T, Typ: p.typ(0)} })
 	reg(sdkMath+".NewIntFromString", func(p *preCall) Val {
 		fc := p.fc()
 		fc.B.DeclFun("intparse", []string{"String"}, "Int")
 		fc.B.DeclFun("intparse_ok", []string{"String"}, "Bool")
 		s := p.str(0)
+		if fc.Mode == "safety" {
+			// the parsed value is a proper (non-nil) Int exactly when parsing succeeded
+			fc.B.DeclFun("int_isnil", []string{"Int"}, "Bool")
+			r := fc.B.Fresh("parsedint", "Int")
+			fc.B.Assert(implies(p.reach, and(implies("(intparse_ok "+s+")", and(eq(r, "(intparse "+s+")"), not("(int_isnil "+r+")"))), implies(not("(intparse_ok "+s+")"), "(int_isnil "+r+")"))))
+			return tup(Val{S: "Int", T: r, Typ: p.typ(0)}, boolVal("(intparse_ok "+s+")"))
+		}
 		return tup(Val{S: "Int", T: ite("(intparse_ok "+s+")", "(intparse "+s+")", "0"), Typ: p.typ(0)}, boolVal("(intparse_ok "+s+")"))
 	})
 
@@ -123,7 +162,28 @@ func init() {
 		fc.trusted["sdk.NewCoins(c): [c] for a positive amount, empty for a zero amount (zero coins are removed)"] = true
 		return Val{S: "(Slice " + es + ")", T: fc.def("coins", "(Slice "+es+")", ite(eq(amt, "0"), empty, one)), Typ: p.typ(0)}
 	})
-	coinM := func(name string, f func(*preCall) Val) { reg("("+sdkTypes+".Coin)."+name, f) }
+	coinM := func(name string, f func(*preCall) Val) {
+		reg("("+sdkTypes+".Coin)."+name, func(p *preCall) Val {
+			if fc := p.fc(); fc.Mode == "safety" && p.cc != nil && (name == "IsZero" || name == "IsNegative" || name == "IsPositive" || name == "Add" || name == "Sub") {
+				if _, a, ok := fc.coinParts(p.args[0]); ok {
+					fc.B.DeclFun("int_isnil", []string{"Int"}, "Bool")
+					fc.safety(p.reach, "(int_isnil "+a+")", "nil-math-int", p.cc)
+				}
+			}
+			return f(p)
+		})
+	}
+	// sdk.Coin.Validate: nil error only for a valid denomination and a non-nil, non-negative amount
+	reg("("+sdkTypes+".Coin).Validate", func(p *preCall) Val {
+		fc := p.fc()
+		e := fc.freshErr("coinvalid")
+		if d, a, ok := fc.coinParts(p.args[0]); ok {
+			fc.B.DeclFun("valid_denom", []string{"String"}, "Bool")
+			fc.B.DeclFun("int_isnil", []string{"Int"}, "Bool")
+			fc.B.Assert(implies(p.reach, implies(eq(e.T, "0"), and("(valid_denom "+d+")", not("(int_isnil "+a+")"), "(>= "+a+" 0)"))))
+		}
+		return e
+	})
 	coinM("GetDenom", func(p *preCall) Val { d, _, _ := p.fc().coinParts(p.args[0]); return strVal(d) })
 	coinM("IsZero", func(p *preCall) Val { _, a, _ := p.fc().coinParts(p.args[0]); return boolVal(eq(a, "0")) })
 	coinM("IsNegative", func(p *preCall) Val { _, a, _ := p.fc().coinParts(p.args[0]); return boolVal("(< " + a + " 0)") })
